@@ -157,6 +157,42 @@ var deviations = []deviation{
 	{"resume-restart-honest-fallback", func(in *input, c *certSpec) { in.Resume = "restart" }, "accept-tls"},
 	{"resume-restart-no-certificate", func(in *input, c *certSpec) { in.Resume = "restart"; in.Chain = nil }, "accept-tls"},
 	{"resume-restart-garbled-proof", func(in *input, c *certSpec) { in.Resume = "restart"; c.Sig.Kind = "garbage" }, "accept-tls"},
+	// malformed onet-pubkey URIs (name no key at all): must be refused like any URI
+	// that does not name the expected key -- also when everything else is missing
+	{"uri-malformed-no-colon", func(in *input, c *certSpec) { c.URIs = []uriSpec{rawURI("nobody")} }, ""},
+	{"uri-malformed-empty", func(in *input, c *certSpec) { c.URIs = []uriSpec{rawURI("")} }, ""},
+	{"uri-malformed-empty-key", func(in *input, c *certSpec) { c.URIs = []uriSpec{rawURI(":")} }, ""},
+	{"uri-malformed-not-hex", func(in *input, c *certSpec) { c.URIs = []uriSpec{rawURI(":Zzz-not-hex")} }, ""},
+	{"uri-malformed-truncated-key", func(in *input, c *certSpec) { c.URIs = []uriSpec{rawURI(":Z0102")} }, ""},
+	{"uri-malformed-then-good", func(in *input, c *certSpec) { c.URIs = []uriSpec{rawURI("nobody"), uriOf(kA)} }, ""},
+	{"uri-malformed-no-proof-unheld-target", func(in *input, c *certSpec) {
+		// a server holding no server key at all, dialled as E
+		c.CN = nm("new", kE)
+		c.URIs = []uriSpec{rawURI("nobody")}
+		c.Sig.Kind = "none"
+		in.Expected = kE
+	}, ""},
+	{"uri-malformed-own-proof-other-target", func(in *input, c *certSpec) {
+		c.URIs = []uriSpec{rawURI("nobody")}
+		in.Expected = kE
+	}, "dial"},
+	// history: the honest server of key E connected genuinely before (and left / stays);
+	// then the peer proves its own key A and announces E
+	{"prior-victim-left-identity-victim", func(in *input, c *certSpec) {
+		in.Prior = []int{kE}
+		in.Ident = identSpec{Kind: "other", Key: kE}
+	}, "accept-tls"},
+	{"prior-victim-stays-identity-victim", func(in *input, c *certSpec) {
+		in.Prior = []int{kE}
+		in.PriorStays = true
+		in.Ident = identSpec{Kind: "other", Key: kE}
+	}, "accept-tls"},
+	{"prior-victim-left-honest", func(in *input, c *certSpec) { in.Prior = []int{kE} }, "accept-tls"},
+	{"prior-victim-left-uri-victim-identity-victim", func(in *input, c *certSpec) {
+		in.Prior = []int{kE}
+		c.URIs = []uriSpec{uriOf(kE)}
+		in.Ident = identSpec{Kind: "other", Key: kE}
+	}, "accept-tls"},
 	// identity message after the handshake
 	{"identity-other-key", func(in *input, c *certSpec) { in.Ident = identSpec{Kind: "other", Key: kB} }, "accept-tls"},
 	{"identity-honest-key", func(in *input, c *certSpec) { in.Ident = identSpec{Kind: "other", Key: kE} }, "accept-tls"},
@@ -210,6 +246,10 @@ func u0(c *certSpec) *uriSpec {
 		c.URIs = []uriSpec{uriOf(kA)}
 	}
 	return &c.URIs[0]
+}
+
+func rawURI(opaque string) uriSpec {
+	return uriSpec{Scheme: "onet-pubkey", Raw: &opaque}
 }
 
 func applicable(d deviation, level, role string) bool {
@@ -300,6 +340,9 @@ func mutate(rng *rand.Rand, in *input, n int) {
 				}
 				if rng.Intn(6) == 0 {
 					u.Svc = "svc"
+				}
+				if rng.Intn(6) == 0 {
+					u = rawURI([]string{"nobody", "", ":", ":Zzz-not-hex", ":Z0102"}[rng.Intn(5)])
 				}
 				c.URIs = append(c.URIs, u)
 			}
@@ -510,6 +553,10 @@ func generate(rng *rand.Rand, tier string) []interface{} {
 		in.UnauthOk = level == "tls" && rng.Intn(2) == 0
 		if level == "tls" && r == "accept" && rng.Intn(8) == 0 {
 			in.Resume = []string{"same", "restart"}[rng.Intn(2)]
+		}
+		if level == "tls" && r == "accept" && rng.Intn(6) == 0 {
+			in.Prior = []int{kE}
+			in.PriorStays = rng.Intn(2) == 0
 		}
 		mutate(rng, &in, 1+rng.Intn(4))
 		if r == "accept" {
